@@ -646,6 +646,9 @@ func (g *Gen) evalCall(ctx *specCtx, x *ECall) Val {
 			return BoolV{"(>= " + v.Ref + " " + ctx.old.ac + ")"}
 		case PtrV:
 			return BoolV{"(>= " + v.Ref + " " + ctx.old.ac + ")"}
+		case IfaceV:
+			// interface holding a pointer: its payload is the reference
+			return BoolV{"(>= " + v.Pay + " " + ctx.old.ac + ")"}
 		}
 		g.unsupported("fresh() of non-reference")
 	case "min", "max":
